@@ -237,6 +237,42 @@ def optimizer_counts(ctx, rep):
             if ev.eval_count != calls["n"]:
                 rep.violate(f"evaluation count {ev.eval_count} but the base fitness entry points were invoked {calls['n']} times (local optimization)",
                             "C19:local-opt-count", {"trial": t})
+        # multi-process evaluation with a locally optimizing fitness function: what a slot holds after the phase must be the
+        # individual the fitness was computed ON (its constants are the optimized ones, it no longer asks for optimization,
+        # its stored fitness is the base fitness of the constants it holds), and the count includes the workers' invocations
+        for t in range(ctx.n(4, 30)):
+            x = np.linspace(0.2, 2, 9).reshape(-1, 1)
+            y = 2.5 * x + 0.5
+            base = ExplicitRegression(ExplicitTrainingData(x, y))
+            method = rng.choice(["lm", "BFGS"])
+            lo = LocalOptFitnessFunction(base, ScipyOptimizer(base, method=method))
+            ev = Evaluation(lo, multiprocess=2)
+            eqs = [rng.choice(["1.0*X_0 + 1.0", "X_0*X_0", "2.0*X_0", "sin(X_0) + 1.0", "X_0 + X_0"]) for _ in range(rng.randrange(2, 6))]
+            pop = [AGraph(equation=e) for e in eqs]
+            np.random.seed(rng.randrange(2 ** 31))
+            with warnings.catch_warnings():
+                warnings.simplefilter("ignore")
+                ev(pop)
+            rep.case(("localopt-mp", t), True)
+            rep.count("optimizer", "local-opt multi-process evaluation")
+            ref = ExplicitRegression(ExplicitTrainingData(x, y))
+            for i, ind in enumerate(pop):
+                case = {"equations": eqs, "slot": i, "method": method}
+                if not ind.fit_set:
+                    rep.violate(f"multi-process evaluation with local optimization left slot {i} unevaluated", "C19:slot-unevaluated", case)
+                    break
+                if ind.needs_local_optimization():
+                    rep.violate(f"multi-process evaluation with local optimization: slot {i} ({eqs[i]}) is marked evaluated but the individual in the "
+                                "slot still requests local optimization (the fitness was computed on another object)", "C19:slot-not-the-evaluated-individual", case)
+                    break
+                want = float(ref(ind.copy()))
+                got = float(ind.fitness)
+                if not (got == want or abs(got - want) <= 1e-9 * max(1.0, abs(want))):
+                    rep.violate(f"multi-process evaluation with local optimization: slot {i} ({eqs[i]}) stores fitness {got} but the fitness function's "
+                                f"value for the individual in the slot is {want}", "C19:slot-not-the-evaluated-individual", case)
+                    break
+            if ev.eval_count <= 0:
+                rep.violate("multi-process evaluation with local optimization reported no fitness evaluations", "C19:local-opt-count", {"equations": eqs})
     except Exception as exc:
         rep.extra["local_opt_count_error"] = repr(exc)
 
